@@ -160,9 +160,9 @@ theorem itemChildren_text (grid : Bool) (l : List KBox) (h : TidyL l) :
         have hnt : c2.isA .TextBox = false := isSub_ib_not_text _ hib
         have htext : c2.text = [] := (tidy_parts hc2t).2.1 hnt
         refine ⟨?_, ?_, ih2⟩
-        · simp only [leafTextL, noSp_append, (hmark _).1, leafText_withStyle, leafText_anon, ih1]
+        · simp only [leafTextL, noSp_append, (hmark _).1, leafText_withInst, leafText_withStyle, leafText_anon, ih1]
           rw [← t2, leafText_eq c2, htext]; rfl
-        · rw [(hmark _).2, tidy_withStyle]
+        · rw [(hmark _).2, tidy_withInst, tidy_withStyle]
           exact tidy_anon _ _ _ rfl (tidy_parts hc2t).2.2
       · split
         · refine ⟨?_, ?_, ih2⟩
